@@ -15,6 +15,7 @@ from arraylib import *
 from c07_lib import *
 
 KEY_AUTOSAVE = 'F-C07-autosave-writers-not-drained'
+KEY_TRUNC = 'F-C07-parity-truncated-before-content-save'
 LOAD_FAIL = re.compile(r'content file.*(damaged|truncated)|Error reading the content|Unexpected end of content|No content file|Error decoding', re.I)
 WRITE_CALLS = ('write', 'pwrite')
 
@@ -61,7 +62,7 @@ class SyncKill:
     def __init__(self, chk, scn, cache, autosave_at=0, model=None, full_c01=False):
         self.chk, self.scn, self.cache, self.autosave_at, self.model, self.full_c01 = chk, scn, cache, autosave_at, model, full_c01
         self.opts = ['--test-io-cache', str(cache)] + (['--test-force-autosave-at', str(autosave_at)] if autosave_at else [])
-        self.adds_only = scn.name in ('adds', 'fresh')
+        self.adds_only = scn.name in ('adds', 'adds3', 'fresh')
         self.synced_before = [(op[1], op[2]) for ph in scn.pre for op in ph if op[0] == 'write'] if self.adds_only else []
         self.stats = {'kills': 0, 'content_loads': 0, 'kill_inv_stripes': 0, 'resumed': 0, 'c01_recoveries': 0, 'adds_recoveries': 0,
                       'torn_write_np1_unrecoverable': 0, 'torn_total': 0, 'autosave_race_hits': 0}
@@ -142,8 +143,8 @@ class SyncKill:
             # 4. adds only: every file synced before stays recoverable from any single lost device
             if self.adds_only and self.synced_before:
                 devs = [('d', dname) for dname in a.disks] + [('p', l) for l in range(a.np)]
-                if not self.full_c01:
-                    devs = [devs[(k + j) % len(devs)] for j in range(2)]
+                if not self.full_c01 and self.scn.name != 'adds3':
+                    devs = [devs[(k + j) % len(devs)] for j in range(2)]     # adds3: every single device in turn, always
                 for dev in devs:
                     bad = self.recover_before(a, dev)
                     self.stats['adds_recoveries'] += 1
@@ -213,6 +214,7 @@ class SyncKill:
         chk = self.chk
         a = self.scn.build()
         try:
+            len_before = [len(a.parity_bytes(l)) // a.bs for l in range(a.np)]
             post_scan(a)
             st1 = a.content()
             br = Bridge(a)
@@ -249,7 +251,8 @@ class SyncKill:
             if ev[0] != 'W' and real and real[-1] == ev:
                 continue
             real.append(ev)
-        main_model = [e[0] for e in mev if e[0] in 'RSF']
+        # a resize to the size the parity files already have issues no system call
+        main_model = [e[0] for e in mev if e[0] in 'RSF' and not (e[0] == 'R' and all(x == int(e[1:]) for x in len_before))]
         # consecutive duplicates collapse in the real abstraction (several calls per event)
         mm = []
         for e in main_model:
@@ -329,7 +332,7 @@ def signal_case(chk, scn, slow, cache, k, sig, model, stats):
         view = stripe_view(a, st)
         # adds only: the files synced before are recoverable from up to np lost devices
         synced_before = [(op[1], op[2]) for ph in scn.pre for op in ph if op[0] == 'write']
-        if scn.name in ('adds', 'fresh') and synced_before:
+        if scn.name in ('adds', 'adds3', 'fresh') and synced_before:
             devs = [('d', dn) for dn in a.disks] + [('p', l) for l in range(a.np)]
             start = (k * 7 + int(sig)) % len(devs)
             lost = [devs[(start + j) % len(devs)] for j in range(a.np)]
@@ -485,6 +488,102 @@ def unrecoverable_rerun_probe(binary, shim):
         drop(a)
 
 
+class ReaddHistory:
+    """a file is deleted; the sync that removes it from the parity is killed (at every call, and with --test-kill-after-sync: parity
+    updated, final content not saved); a file with IDENTICAL content is put back (it takes the same positions); sync again.  The
+    past hashes of an interrupted sync must not be trusted (state.c clear_past_hash): the resumed sync has to rewrite the parity, and
+    afterwards the independent parity check and the recovery of a lost disk must pass."""
+
+    def __init__(self, chk, binary, shim, nd=2, np_=1, cache=3):
+        self.chk, self.binary, self.shim, self.nd, self.np, self.cache = chk, binary, shim, nd, np_, cache
+        self.stats = {'histories': 0, 'passed': 0}
+        a = self.build()
+        log = os.path.join(a.root, 'ref.log')
+        a.remove('d%d' % nd, 'b')
+        r = a.run('sync', '--test-io-cache', str(cache), shim_env={'VSHIM_LOG': log})
+        self.calls = shim_log(log)
+        drop(a)
+
+    def build(self):
+        a = Array(self.binary, nd=self.nd, np_=self.np, shim=self.shim)
+        for i, d in enumerate(a.disks):
+            a.write(d, 'a', det_bytes('rh/%s/a' % d, 3 * BS + 11 * i), mtime_ns=T0 + 1000 + i)
+            a.write(d, 'b', det_bytes('rh/%s/b' % d, 4 * BS - 3 * i), mtime_ns=T0 + 2000 + i)
+        r = a.run('sync')
+        if r.rc != 0:
+            raise RuntimeError('readd history: clean sync failed %r' % r)
+        return a
+
+    def points(self):
+        pts = [('kill-after-sync', None, 'new')] + [(n, m, 'new') for (n, call, path, rest) in self.calls for m in ('before', 'after')]
+        # the file restored with its old time stamp (cp -p from a backup): the scan sees no change at all
+        pts += [('kill-after-sync', None, 'same')] + [(n, 'after', 'same') for (n, call, path, rest) in self.calls]
+        return pts
+
+    def window(self, pt):
+        """is the kill point between the shrinking of the parity and the rename of the content that records the deletion?
+        (then the surviving content still records the deleted file's stripes as synced over a parity that is gone)"""
+        if pt[0] == 'kill-after-sync':
+            return False
+        shrink = [n for (n, call, path, rest) in self.calls if call == 'ftruncate' and path.endswith('.parity')]
+        ren = [n for (n, call, path, rest) in self.calls if call == 'rename' and 'snapraid.content' in path]
+        if not shrink or not ren:
+            return False
+        k = pt[0] if pt[1] == 'after' else pt[0] - 1          # last call completed
+        return min(shrink) <= k < min(ren)
+
+    def case(self, pt):
+        chk = self.chk
+        if len(chk.violations) > 8:
+            return
+        a = self.build()
+        dl = 'd%d' % self.nd
+        rep = {'history': 'delete %s/b; sync interrupted at %s; re-add identical %s/b; sync' % (dl, pt, dl), 'nd': self.nd, 'np': self.np, 'io_cache': self.cache}
+        try:
+            data = a.store[(dl, 'b')][0][0]
+            a.remove(dl, 'b')
+            if pt[0] == 'kill-after-sync':
+                r = a.run('sync', '--test-io-cache', str(self.cache), '--test-kill-after-sync')
+            else:
+                r = a.run('sync', '--test-io-cache', str(self.cache), shim_env={'VSHIM_KILL': '%d:%s' % pt[:2] if pt[1] != 'before' else str(pt[0])})
+            self.stats['histories'] += 1
+            # the same bytes again (a new time stamp: it is a new file for the tool)
+            a.write(dl, 'b', data, mtime_ns=(T0 + 9000 * 10**9) if pt[2] == 'new' else a.store[(dl, 'b')][0][1])
+            key = KEY_TRUNC if self.window(pt) else None
+            rs = a.run('sync', '--test-io-cache', str(self.cache))
+            if rs.rc != 0:
+                # in the truncation window and with the file restored unchanged the tool at least notices ("parity files are smaller than
+                # expected", asks for --force-full): same root cause, same finding
+                refused = key if 'smaller than expected' in rs.err else None
+                chk.violation('readd_sync', 'delete / interrupted sync (%s) / identical re-add: the next sync fails (rc %d): %s' % (pt, rs.rc, rs.err[-200:]), rep, finding_key=refused)
+                self.stats['known_truncation_window'] = self.stats.get('known_truncation_window', 0) + (1 if refused else 0)
+                return
+            st = a.content()
+            left = all_synced(a, st)
+            perr, n = a.check_parity(st)
+            if left or perr:
+                chk.violation('readd_parity', 'delete / interrupted sync (%s) / identical re-add / sync: stripes %s unsynced, %s' % (pt, left, perr[:2]), rep, finding_key=key)
+                self.stats['known_truncation_window'] = self.stats.get('known_truncation_window', 0) + (1 if key else 0)
+                return
+            final = a.snapshot_data()
+            for dname in a.disks:
+                b = clone(a)
+                try:
+                    lose(b, ('d', dname))
+                    rf = b.run('fix', '-d', dname)
+                    got = {kk: v for kk, v in b.snapshot_data().items() if kk[0] == dname}
+                    exp = {kk: v for kk, v in final.items() if kk[0] == dname}
+                    dd = data_equal(exp, got)
+                    if rf.rc != 0 or dd:
+                        chk.violation('readd_c01', 'delete / interrupted sync (%s) / identical re-add / sync: losing %s is not recovered (fix rc %d): %s' % (pt, dname, rf.rc, dd[:3]), rep)
+                        return
+                finally:
+                    drop(b)
+            self.stats['passed'] += 1
+        finally:
+            drop(a)
+
+
 # -------------------------------------------------------------------------------------------------- the autosave race witness
 def autosave_witness(chk, binary, shim, slow):
     """replay of kill_inv_refuted_autosave_threaded: threaded sync with an autosave, parity writes delayed, killed right after the
@@ -546,10 +645,11 @@ def main(tier, replay=None):
     quick = tier == 'quick'
     # ---- (b) abrupt kills
     if quick:
-        confs = [('adds', 2, 1, 1, 1, 0), ('adds', 2, 2, 3, 1, 0), ('mixed', 3, 2, 3, 2, 0)]
+        confs = [('adds', 2, 1, 1, 1, 0), ('adds', 2, 2, 3, 1, 0), ('mixed', 3, 2, 3, 2, 0), ('adds3', 3, 1, 3, 1, 0)]
     else:
         confs = [('adds', 2, 1, 1, 1, 0), ('adds', 2, 2, 3, 1, 0), ('mixed', 3, 2, 3, 2, 0), ('adds', 3, 3, 8, 3, 0), ('mixed', 2, 1, 1, 1, 0),
-                 ('fresh', 2, 2, 3, 2, 0), ('adds', 2, 2, 1, 2, 5), ('mixed', 3, 3, 128, 3, 0), ('adds', 2, 1, 3, 1, 0), ('adds', 2, 2, 8, 1, 5)]
+                 ('fresh', 2, 2, 3, 2, 0), ('adds', 2, 2, 1, 2, 5), ('mixed', 3, 3, 128, 3, 0), ('adds', 2, 1, 3, 1, 0), ('adds', 2, 2, 8, 1, 5),
+                 ('adds3', 3, 1, 3, 1, 0), ('adds3', 4, 2, 1, 2, 0), ('adds3', 3, 2, 8, 1, 0)]
     tot = {}
     conf_sum = []
     traces_ok = 0
@@ -568,6 +668,17 @@ def main(tier, replay=None):
         conf_sum.append(dict(K.desc, calls=K.ncalls, kill_points=len(pts)))
         if len(chk.violations) > 8:
             break
+    # ---- delete / interrupted sync / identical re-add
+    rstats = {}
+    for (nd_, np_, cache_) in ([(2, 1, 3)] if quick else [(2, 1, 3), (3, 2, 1), (2, 2, 8)]):
+        try:
+            RH = ReaddHistory(chk, binary, shim, nd_, np_, cache_)
+        except Exception as e:
+            chk.violation('setup', 'readd history cannot be prepared: %s' % e, {'nd': nd_}, no_input=True)
+            continue
+        pmap(RH.case, RH.points())
+        for k, v in RH.stats.items():
+            rstats[k] = rstats.get(k, 0) + v
     # ---- the autosave race (known finding), deterministic replay
     aw = autosave_witness(chk, binary, shim, slow)
     # ---- (a) graceful stops
@@ -596,10 +707,10 @@ def main(tier, replay=None):
             fstats[k] = fstats.get(k, 0) + v
         fconf.append({'np': np_, 'calls': len(F.calls), 'kill_points': len(pts)})
     probe = unrecoverable_rerun_probe(binary, shim)
-    n_eval = tot.get('kills', 0) + sstats['signals'] + fstats.get('kills', 0)
+    n_eval = tot.get('kills', 0) + sstats['signals'] + fstats.get('kills', 0) + rstats.get('histories', 0)
     chk.cov.update({'evaluations': n_eval, 'distinct_nontrivial': n_eval,
                     'rule': 'EVERY numbered state-changing call k of a reference sync (and of a reference fix) x {before, after, short for write/pwrite}: one fresh deterministic array per point, killed there; SIGINT/SIGTERM at every parity write of slowed syncs; non-trivial = runs really interrupted',
-                    'sync_kill_configurations': conf_sum, 'sync_kill': tot, 'graceful_stop': sstats, 'fix_kill_configurations': fconf, 'fix_kill': fstats,
+                    'sync_kill_configurations': conf_sum, 'sync_kill': tot, 'graceful_stop': sstats, 'fix_kill_configurations': fconf, 'fix_kill': fstats, 'delete_kill_identical_readd': rstats,
                     'torn_write_np1_unrecoverable': tot.get('torn_write_np1_unrecoverable', 0), 'autosave_race': aw,
                     'fix_rerun_after_unrecoverable_result (measured, not judged)': probe,
                     'traces_validated_against_impl': traces_ok})
